@@ -978,8 +978,8 @@ class ghf(wave_function):
         return jnp.linalg.det(
             jnp.hstack(
                 [
-                    wave_data["mo_coeff"][: self.norb].T @ walker_up,
-                    wave_data["mo_coeff"][self.norb :].T @ walker_dn,
+                    wave_data["mo_coeff"][: self.norb].T.conj() @ walker_up,
+                    wave_data["mo_coeff"][self.norb :].T.conj() @ walker_dn,
                 ]
             )
         )
@@ -990,8 +990,8 @@ class ghf(wave_function):
     ) -> jax.Array:
         overlap_mat = jnp.hstack(
             [
-                wave_data["mo_coeff"][: self.norb].T @ walker_up,
-                wave_data["mo_coeff"][self.norb :].T @ walker_dn,
+                wave_data["mo_coeff"][: self.norb].T.conj() @ walker_up,
+                wave_data["mo_coeff"][self.norb :].T.conj() @ walker_dn,
             ]
         )
         inv = jnp.linalg.inv(overlap_mat)
@@ -1037,7 +1037,7 @@ class ghf(wave_function):
     def _calc_rdm1(self, wave_data: dict) -> jax.Array:
         dm = (
             wave_data["mo_coeff"][:, : self.nelec[0] + self.nelec[1]]
-            @ wave_data["mo_coeff"][:, : self.nelec[0] + self.nelec[1]].T
+            @ wave_data["mo_coeff"][:, : self.nelec[0] + self.nelec[1]].T.conj()
         )
         dm_up = dm[: self.norb, : self.norb]
         dm_dn = dm[self.norb :, self.norb :]
